@@ -385,3 +385,53 @@ Lemma scope_witness_shape :
   nearest_crosses_nm w_scope_fs 2 (pw_ ["node_modules"; "nopkg"]) = true
   /\ bare_ok (s_ "rootpkg") = true /\ no_case_collision w_scope_fs = true.
 Proof. repeat split; vm_compute; reflexivity. Qed.
+
+(* ---- ES-module entry, relative and absolute specifiers: Node does no
+   extension search and no directory index; whenever it resolves, esbuild's
+   loadAsFile finds the same file first ---- *)
+Definition agree_import (m : rres) (n : nres) : Prop :=
+  match n with
+  | NFile p => m = RFile p
+  | NBuiltin s => m = RBuiltin s
+  | NRejected _ => m = RFail
+  | NNotFound | NOut => True      (* esbuild may resolve more than Node's import does *)
+  end.
+
+Lemma load_as_file_exact fs p : isfile fs p = true -> load_as_file fs p = Some p.
+Proof. intros H. unfold load_as_file, try_file. rewrite H. reflexivity. Qed.
+
+Lemma import_relative_all builtin fs user dir x :
+  builtin x = false -> is_package_path x = false ->
+  agree_import (resolve builtin fs KImport user dir x) (import_resolve builtin fs user dir x).
+Proof.
+  intros Hb Hpp. unfold resolve, import_resolve. rewrite Hb, Hpp. cbn [negb].
+  destruct (prefixb (s_ "/") x) eqn:E1.
+  - unfold esm_file_check. destruct (isfile fs (abs_path x)) eqn:Ef; [|exact I].
+    unfold load_as_file_or_directory. rewrite (load_as_file_exact _ _ Ef). reflexivity.
+  - unfold is_package_path in Hpp. rewrite E1 in Hpp. cbn [negb andb] in Hpp.
+    assert (Hc : prefixb (s_ "./") x || prefixb (s_ "../") x || str_eqb x (s_ ".") || str_eqb x (s_ "..") = true).
+    { destruct (prefixb (s_ "./") x), (prefixb (s_ "../") x), (str_eqb x (s_ ".")), (str_eqb x (s_ ".."));
+        try reflexivity; discriminate Hpp. }
+    rewrite Hc. unfold has_trailing_slash.
+    destruct (suffixb (s_ "/") x || suffixb (s_ "/.") x || suffixb (s_ "/..") x || str_eqb x (s_ ".") || str_eqb x (s_ "..")) eqn:Et;
+      [exact I|].
+    assert (Hts : str_eqb x (s_ ".") || str_eqb x (s_ "..") || suffixb (s_ "/") x || suffixb (s_ "/.") x || suffixb (s_ "/..") x = false).
+    { destruct (suffixb (s_ "/") x), (suffixb (s_ "/.") x), (suffixb (s_ "/..") x), (str_eqb x (s_ ".")), (str_eqb x (s_ ".."));
+        try reflexivity; discriminate Et. }
+    rewrite Hts. unfold esm_file_check. destruct (isfile fs (join_rel dir x)) eqn:Ef; [|exact I].
+    unfold load_as_file_or_directory. rewrite (load_as_file_exact _ _ Ef). reflexivity.
+Qed.
+
+(* ---- D14: for import, a file node_modules/dep.js shadows the package directory in esbuild ---- *)
+Definition w_shadow_fs : fsmap :=
+  [ (pw_ [], EDir None); (pw_ ["node_modules"], EDir None);
+    (pw_ ["node_modules"; "dep.js"], EFile);
+    (pw_ ["node_modules"; "dep"], EDir (Some (mkPkg (Some (s_ "dep")) (Some (s_ "./main.js")) None None)));
+    (pw_ ["node_modules"; "dep"; "main.js"], EFile) ].
+Lemma refuted_import_file_shadows_package :
+  wf_fsb w_shadow_fs = true /\ no_tsb w_shadow_fs = true /\ no_case_collision w_shadow_fs = true
+  /\ bare_ok (s_ "dep") = true
+  /\ resolve (fun _ => false) w_shadow_fs KImport [] [] (s_ "dep") = RFile (pw_ ["node_modules"; "dep.js"])
+  /\ import_resolve (fun _ => false) w_shadow_fs [] [] (s_ "dep") = NFile (pw_ ["node_modules"; "dep"; "main.js"])
+  /\ require_resolve (fun _ => false) w_shadow_fs [] [] (s_ "dep") = NFile (pw_ ["node_modules"; "dep.js"]).
+Proof. repeat split; vm_compute; reflexivity. Qed.
